@@ -229,7 +229,7 @@ UNITS.append(replace_target_unit("C15"))
 VERIFIED_CALLEES = ("ActionLink.set_target_value",)
 LEVEL = "other"
 TECHNIQUE = "contract-based deductive verification (VCs from the real AST with ghost events; link invariant from _initial_input_checks) + bounded run-time contract checking of parse links on generated parsers"
-LEVEL_TEXT = 'Proved: the option of a link target is always rejected (TypeError); _initial_input_checks establishes targets pairwise distinct / no chains for parse links (symbolic keys); apply_parsing_links sets every link target exactly once, in declaration order, to the source value or compute_fn(sources) whatever was supplied for the target, and not while a config is loaded or printed; set_target_value writes only the target key. Bounded only: 17 parser shapes x channels x ways of supplying the target.'
+LEVEL_TEXT = 'Proved: the option of a link target is always rejected (TypeError); _initial_input_checks establishes targets pairwise distinct / no chains for parse links (symbolic keys); apply_parsing_links sets every link target exactly once, in declaration order, to the source value or compute_fn(sources) whatever was supplied for the target, and not while a config is loaded or printed; set_target_value writes only the target key. Also: the key resolvers find_parent_or_child_actions / find_subclass_action_or_class_group (component boundaries, exclusions, class groups only), link_arguments, get_nested_links. Bounded only: 17 parser shapes x channels x ways of supplying the target.'
 LEVEL_NOTE = "under construction"
 EXPLANATION = "under construction"
 ASSUMPTIONS = []
